@@ -364,6 +364,58 @@ func TestC18(t *testing.T) {
 		if err != nil || again != got1 {
 			rep.Violate("C18/evaluation-changes-answer", fmt.Sprintf("Equals(%s)(%s) first %v then %v", show(x), show(a), got1, again), c)
 		}
+		// the same argument storage holding other contents later on (a caller's reused variable, a pointer whose pointee
+		// or a map whose entries changed between two calls): the answer follows the contents, not the storage
+		if !excludedPair(x, other) {
+			slot := reflect.New(pt).Elem()
+			put := func(v interface{}) {
+				if v == nil {
+					slot.Set(reflect.Zero(pt))
+				} else {
+					slot.Set(reflect.ValueOf(v))
+				}
+			}
+			put(a)
+			r1, _ := e1.Eval([]reflect.Value{slot}, false)
+			put(other)
+			r2, _ := e1.Eval([]reflect.Value{slot}, false)
+			rep.Eval(2)
+			if w2 := oracle(d, x, other); r1 != got1 || r2 != w2 {
+				rep.Violate("C18/evaluation-changes-answer", fmt.Sprintf("Equals(%s) asked about one variable holding %s and then %s: %v then %v, want %v then %v", show(x), show(a), show(other), r1, r2, got1, w2), c)
+			}
+			rep.Stat("reused_storage_queries", 1)
+			av, ov := reflect.ValueOf(a), reflect.ValueOf(other)
+			if av.IsValid() && ov.IsValid() && av.Type() == ov.Type() && ((av.Kind() == reflect.Ptr && !av.IsNil() && !ov.IsNil()) || (av.Kind() == reflect.Map && !av.IsNil() && !ov.IsNil())) {
+				var cp reflect.Value
+				if av.Kind() == reflect.Ptr {
+					cp = reflect.New(av.Type().Elem())
+					cp.Elem().Set(av.Elem())
+				} else {
+					cp = reflect.MakeMap(av.Type())
+					for _, k := range av.MapKeys() {
+						cp.SetMapIndex(k, av.MapIndex(k))
+					}
+				}
+				slot.Set(cp)
+				r1, _ := e1.Eval([]reflect.Value{slot}, false)
+				if av.Kind() == reflect.Ptr {
+					cp.Elem().Set(ov.Elem())
+				} else {
+					for _, k := range cp.MapKeys() {
+						cp.SetMapIndex(k, reflect.Value{})
+					}
+					for _, k := range ov.MapKeys() {
+						cp.SetMapIndex(k, ov.MapIndex(k))
+					}
+				}
+				r2, _ := e1.Eval([]reflect.Value{slot}, false)
+				rep.Eval(2)
+				if w2 := oracle(d, x, other); r1 != got1 || r2 != w2 {
+					rep.Violate("C18/evaluation-changes-answer", fmt.Sprintf("Equals(%s) asked about the same %s before and after its contents changed from %s to %s: %v then %v, want %v then %v", show(x), av.Kind(), show(a), show(other), r1, r2, got1, w2), c)
+				}
+				rep.Stat("mutated_pointee_queries", 1)
+			}
+		}
 		cls := d.name
 		if asIface {
 			cls = "iface:" + d.name
